@@ -21,6 +21,7 @@ from ..cfg import CFG
 from .. import bcifwire
 from ..exprnorm import contains_expr, same_expr
 from ..core import AnalysisError, Mutant
+from ..exprnorm import has_code
 
 EXPLANATION = (
     "Registry and type-code tables of encoding.pyx (lowered) evaluated from the AST; every "
@@ -173,7 +174,7 @@ def run(ctx):
            "_safe_cast must refuse a float to integer conversion", sc.lineno)
     casts = [n for n in g.nodes if n.ast is not None and isinstance(n.ast, ast.Return) and "astype" in ast.unparse(n.ast)]
     checks = [n for n in g.nodes if n.kind == "test" and "dtype_info" in ast.unparse(n.ast.test) and any(isinstance(b, ast.Raise) for b in n.ast.body)]
-    outer = [n for n in g.nodes if n.kind == "test" and "np.issubdtype(dtype, np.integer)" in ast.unparse(n.ast.test)]
+    outer = [n for n in g.nodes if n.kind == "test" and has_code(n.ast.test, "np.issubdtype(dtype, np.integer)")]
     ctx.ob("R4.safe-cast-order", ENC, "_safe_cast", "range check before astype on the integer path",
            bool(casts) and bool(checks) and bool(outer)
            and g.path(outer[0].id, casts[0].id, blocked={c.id for c in checks} | {b for b in g.succ[outer[0].id] if g.ekind[(outer[0].id, b)] == "f"}) is None,
